@@ -5,6 +5,8 @@ import (
 	"math/big"
 	"strconv"
 	"strings"
+
+	"golang.org/x/tools/go/ssa"
 )
 
 // Pattern language over canonical terms. Syntax = Term.String() syntax plus
@@ -279,6 +281,21 @@ func (p *pat) match(t *Term, b Binds) bool {
 	if p.lit != "" {
 		return t.String() == p.lit
 	}
+	if p.op == "alt" { // alt(p1, p2, …): any of the alternatives
+		for _, a := range p.args {
+			nb := Binds{}
+			for k, v := range b {
+				nb[k] = v
+			}
+			if a.match(t, nb) {
+				for k, v := range nb {
+					b[k] = v
+				}
+				return true
+			}
+		}
+		return false
+	}
 	if t.Op != p.op {
 		return false
 	}
@@ -406,4 +423,99 @@ func short(s string, n int) string {
 		return s[len(s)-n:]
 	}
 	return s
+}
+
+// ExpandCalls replaces, one level deep, every call<H>(args) of a repository
+// function H that has a body and a single returning exit by H's result term
+// with H's parameters bound to the argument terms (ext#k(call) picks result k).
+// Extracting an expression into a helper, or not, gives the same expanded term.
+func ExpandCalls(p *Prog, t *Term) (*Term, bool) {
+	changed := false
+	var rec func(t *Term) *Term
+	expandCall := func(call *Term) []*Term {
+		c, ok := call.V.(ssa.CallInstruction)
+		if !ok {
+			return nil
+		}
+		h := c.Common().StaticCallee()
+		if h == nil || h.Blocks == nil || !InRepo(h) || len(h.Params) != len(call.Args) {
+			return nil
+		}
+		hb := NewBuilder(p, h)
+		hb.Bind = map[*ssa.Parameter]*Term{}
+		for i, prm := range h.Params {
+			hb.Bind[prm] = call.Args[i]
+		}
+		var ret *Exit
+		for _, e := range Exits(h) {
+			if e.Panic {
+				continue
+			}
+			if ret != nil {
+				return nil
+			}
+			e := e
+			ret = &e
+		}
+		if ret == nil {
+			return nil
+		}
+		var out []*Term
+		for _, r := range ret.Results {
+			out = append(out, hb.Of(r, ret.Instr))
+		}
+		return out
+	}
+	rec = func(t *Term) *Term {
+		if t == nil {
+			return t
+		}
+		if t.Op == "ext" && len(t.Args) == 1 && t.Args[0].Op == "call" {
+			if res := expandCall(t.Args[0]); res != nil && t.Idx < len(res) {
+				changed = true
+				return res[t.Idx]
+			}
+		}
+		if t.Op == "call" {
+			if res := expandCall(t); len(res) == 1 {
+				changed = true
+				return res[0]
+			}
+		}
+		if len(t.Args) == 0 {
+			return t
+		}
+		n := &Term{Op: t.Op, Name: t.Name, Idx: t.Idx, V: t.V, C: t.C}
+		same := true
+		for _, a := range t.Args {
+			na := rec(a)
+			if na != a {
+				same = false
+			}
+			n.Args = append(n.Args, na)
+		}
+		if same {
+			return t
+		}
+		return n
+	}
+	r := rec(t)
+	return r, changed
+}
+
+// MatchX is Match that also accepts t after expanding helper calls (up to three levels).
+func MatchX(p *Prog, pattern string, t *Term) (Binds, bool) {
+	for i := 0; ; i++ {
+		if b, ok := Match(pattern, t); ok {
+			return b, true
+		}
+		if i == 3 {
+			return nil, false
+		}
+		nt, changed := ExpandCalls(p, t)
+		if !changed {
+			return nil, false
+		}
+		t = nt
+	}
 }
